@@ -153,6 +153,8 @@ func (s *clientTxnSys) Do(a map[string]any, wait func()) ([]Obs, error) {
 	case "WriteDone":
 		close(s.slow[t])
 		delete(s.slow, t)
+	case "WriteWait":
+		time.Sleep(time.Duration(toInt(a["d"])) * time.Millisecond)
 	case "RtxSlow": // the timer of t fires and its write parks
 		s.slowRtx[t] = make(chan struct{})
 		s.slowRtxAt[t] = s.writes[t] + 1
